@@ -84,6 +84,46 @@ func (s *scanned) mapRangeSites() []rangeSite {
 	var out []rangeSite
 	for _, f := range s.files {
 		for _, d := range f.Decls {
+			// function literals in the initialisers of package-level variables run once per process, at start-up: a map
+			// range there fixes an order for the whole run (site "init:<variable>")
+			if gd, ok := d.(*ast.GenDecl); ok && gd.Tok == token.VAR {
+				for _, sp := range gd.Specs {
+					vs, ok := sp.(*ast.ValueSpec)
+					if !ok || len(vs.Names) == 0 {
+						continue
+					}
+					for _, val := range vs.Values {
+						ast.Inspect(val, func(n ast.Node) bool {
+							fl, ok := n.(*ast.FuncLit)
+							if !ok {
+								return true
+							}
+							synth := &ast.FuncDecl{Name: ast.NewIdent("init:" + vs.Names[0].Name), Body: fl.Body}
+							ord := 0
+							ast.Inspect(fl.Body, func(m ast.Node) bool {
+								rs, ok := m.(*ast.RangeStmt)
+								if !ok {
+									return true
+								}
+								tv, ok := s.info.Types[rs.X]
+								if !ok {
+									return true
+								}
+								if _, isMap := tv.Type.Underlying().(*types.Map); !isMap {
+									return true
+								}
+								site := rangeSite{Func: synth.Name.Name, Expr: s.src(rs.X), Where: s.pos(rs), Ordinal: ord}
+								ord++
+								site.Features = s.bodyFeatures(synth, rs)
+								out = append(out, site)
+								return true
+							})
+							return false
+						})
+					}
+				}
+				continue
+			}
 			fd, ok := d.(*ast.FuncDecl)
 			if !ok || fd.Body == nil {
 				continue
